@@ -699,7 +699,8 @@ class VMF:
 
         After this is called, the entity will no longer be exported.
         The object still exists, so it can be reused. It keeps its ID
-        reserved until it is destroyed.
+        reserved until it is destroyed, and its node ID as long as it has
+        the ``nodeid`` keyvalue.
         """
         try:
             self.entities.remove(item)
@@ -708,13 +709,6 @@ class VMF:
 
         _remove_copyset(self.by_class, item['classname'].casefold(), item)
         _remove_copyset(self.by_target, item['targetname'].casefold() or None, item)
-        if 'nodeid' in item:
-            try:
-                node_id = int(item['nodeid'])
-            except (TypeError, ValueError):
-                pass
-            else:
-                self.node_id.discard(node_id)
 
     def add_brushes(self, brushes: Iterable['Solid']) -> None:
         """Add multiple brushes to the map."""
